@@ -471,6 +471,8 @@ def twin_chain(rng, sd, ac, st, cs):
                   "geometry": {"NACA": "0010"}}}
     base = {"CG": [0.0, 0.0, 0.0], "weight": 50.0, "airfoils": af,
             "reference": {"area": 8.0, "longitudinal_length": 1.0, "lateral_length": 8.0}}
+    if rng.random() < 0.5:
+        del base["reference"]        # default reference area / lengths: the chain's main segments add up to the single segment
     side = rng.choice(["both", "right", "left"])
     one = dict(base, wings={"w": {"ID": 1, "side": side, "is_main": True, "semispan": b, "chord": [[0.0, c0], [1.0, c1]],
                                  "sweep": sw, "dihedral": di, "twist": [[0.0, tw0], [1.0, tw1]], "airfoil": "af0",
